@@ -180,6 +180,10 @@ def eval_c08(ctx, tr, final_snaps):
     for r in tr.recs:
         if r.kind == 'AE' and r.outcome == 'return' and r.by not in tr.Eh and 'snap' in r.f:
             per.setdefault(r.ev, []).append((r.seq, 'await-return', r.snap, True))
+        elif r.kind == 'AE' and r.outcome == 'return' and 'snap' in r.f:
+            # an in-handler await that returned the event complete is an observation of completion as well
+            sn = r.snap
+            per.setdefault(r.ev, []).append((r.seq, 'in-handler await-return', sn, sn.get('status') == 'completed' and sn.get('signal') is True))
         elif r.kind == 'OBS' and 'snap' in r.f:
             s = r.snap
             per.setdefault(r.ev, []).append((r.seq, r.name, s, s.get('status') == 'completed' and s.get('signal') is True))
@@ -364,12 +368,91 @@ def eval_c07(ctx, tr, finished):
     ctx.check('C07.terminates', bool(finished), why='forwarding scenario still busy at the virtual horizon')
 
 
+# ------------------------------------------------------------------ C10 (generic, for scenarios with finite time-outs)
+def eval_c10(ctx, tr, fs, finished):
+    from .base import Exact
+    tos = {k: v for k, v in (ctx.cfg.get('timeouts') or {}).items() if v is not None and Exact(v) < 30}
+    if not tos:
+        return
+    evs = ctx.events
+    for lab, tv in tos.items():
+        if lab not in evs or lab not in tr.firstD:
+            continue
+        T = Exact(tv)
+        fam = [lab] + tr.desc(lab)
+        timed_out = False
+        for e in tr.entries(ev=lab):
+            x = tr.exit_of(e.h)
+            res = [r for r in fs[lab]['results'] if r[0] == e.name and r[1] == ctx.buses[e.bus].name]
+            if x is None:
+                ctx.check('C10.cancelled_at_deadline', False, h=e.h, why='handler never exited')
+                continue
+            if x.outcome == 'cancelled':
+                timed_out = True
+                ctx.witness('timeout fired')
+                ctx.check('C10.cancelled_at_deadline', x.t == e.t + T, h=e.h, why='cancellation instant != enter + T')
+                later = [r for r in tr.recs if r.seq > x.seq and (r.f.get('h') == e.h or r.f.get('by') == e.h or r.f.get('caller') == e.h)]
+                ctx.check('C10.stops_executing', not later, h=e.h)
+                ctx.check('C10.timeout_error', len(res) == 1 and res[0][2] == 'error' and res[0][4] == 'TimeoutError', h=e.h, got=res)
+            else:
+                ctx.check('C10.cancelled_at_deadline', x.t - e.t <= T, h=e.h, why='handler outlived its time-out without being cancelled')
+                ctx.check('C10.result_recorded', len(res) == 1 and res[0][2] in ('completed', 'error'), h=e.h, got=res)
+        if not timed_out:
+            ctx.witness('no timeout')
+        # every handler registered for the timed event ran exactly once
+        for d in tr.DR:
+            if d.ev == lab:
+                for name in ctx.expected(d.bus, lab):
+                    n = tr.count(d.bus, lab, name)
+                    ctx.check('C10.siblings_run', n == 1, ev=lab, handler=name, n=n)
+        sp = fs[lab]
+        ctx.check('C10.event_completes', sp['status'] == 'completed' and sp['signal'] is True, ev=lab, got=(sp['status'], sp['signal']))
+        for d in tr.desc(lab):
+            if not any(r.ev == d for r in tr.DR):
+                continue
+            sd = fs[d]
+            nonterm = [r for r in sd['results'] if r[2] in ('pending', 'started')]
+            ctx.check('C10.children_cancelled', not nonterm, ev=d, got=nonterm)
+            ctx.check('C10.touched_events_complete', sd['status'] == 'completed' and sd['signal'] is True, ev=d, got=(sd['status'], sd['signal']))
+            for e in tr.entries(ev=d):
+                ctx.check('C10.no_double_run', e.n == 1, h=e.h)
+        # unrelated (later) events are still processed exactly once and complete
+        for (bn, other) in _uniq(tr.accepted()):
+            if other in fam or other in tos:
+                continue
+            if tr.parent_inv(other) is not None:
+                continue
+            ok = all(tr.count(bn, other, nme) == 1 for nme in ctx.expected(bn, other))
+            so = fs[other]
+            ctx.check('C10.later_events_run', ok and so['status'] == 'completed' and so['signal'] is True, ev=other, got=(so['status'], so['signal']))
+    for ab in tr.AB:
+        if ab.ev.startswith('idle:'):
+            ae = next((r for r in tr.AE if r.by == ab.by and r.ev == ab.ev and r.seq > ab.seq), None)
+            ctx.check('C10.idle', ae is not None, why='wait_until_idle() still blocked at the virtual horizon')
+
+
 def final_snaps(ctx):
     return {lab: ctx.snap(e) for lab, e in ctx.events.items()}
 
 
+def tag_paths(ctx, tr):
+    """trace predicates (from harness records only) that known findings may be conditioned on."""
+    for h, x in tr.X.items():
+        if x.outcome != 'cancelled':
+            continue
+        # h was cancelled while suspended in an in-handler await and, at that very moment, a handler of a descendant event that it
+        # was processing inline was running and got cancelled with it
+        waits = [r for r in tr.AE if r.by == h and r.outcome == 'cancelled']
+        if not waits:
+            continue
+        for h2, x2 in tr.X.items():
+            if h2 != h and x2.outcome == 'cancelled' and x2.seq < x.seq and tr.Eh[h2].seq > tr.Eh[h].seq:
+                ctx.tag('timeout_during_inline_child')
+
+
 def evaluate(ctx, finished):
     tr = Trace(ctx.records)
+    tag_paths(ctx, tr)
     fs = final_snaps(ctx)
     eval_c01(ctx, tr, finished)
     eval_c02(ctx, tr)
@@ -380,6 +463,7 @@ def evaluate(ctx, finished):
     eval_c07(ctx, tr, finished)
     eval_c08(ctx, tr, fs)
     eval_c09(ctx, tr)
+    eval_c10(ctx, tr, fs, finished)
     eval_c11(ctx, tr, fs)
     eval_c15(ctx, tr)
     ctx.check('GEN.main_finished', bool(finished))
